@@ -44,6 +44,10 @@ pub struct Rec {
     pub read_dropped: bool,
     /// resident count observed right after the op (burst overshoot bound), if measured
     pub resident_after: Option<usize>,
+    /// write records the maintenance pass in progress (if any) had applied at that moment
+    pub pass_applied_after: usize,
+    /// `entry_count()` (what the last completed pass published) at that moment
+    pub entry_count_after: u64,
 }
 
 struct ThreadCtx {
@@ -189,6 +193,8 @@ fn thread_main(mut ctx: ThreadCtx) {
                 res,
                 read_dropped: st.read_dropped,
                 resident_after,
+                pass_applied_after: ctx.hooks.shared.pass_applied.load(std::sync::atomic::Ordering::SeqCst),
+                entry_count_after: if resident_after.is_some() { ctx.cache.as_ref().map(|c| c.entry_count()).unwrap_or(0) } else { 0 },
             });
             if stop {
                 break;
@@ -432,14 +438,36 @@ pub fn run_thr(trace: &Trace) -> (RunReport, Vec<u8>) {
             .iter()
             .filter(|t| t.iter().any(|o| matches!(o.op, Op::Insert { .. })))
             .count() as u64;
-        let limit = cap + 384 + inserting;
+        // The property bounds the state between maintenance runs. A pass that is in progress
+        // (parked or slow) holds at most one record that it has taken off the queue and not yet
+        // applied (+ 1), and every record it has applied so far may have been admitted without
+        // an eviction yet (victims in flux; the size-based eviction at the end of the pass
+        // restores the bound): + the number of records applied so far in that pass.
+        let limit0 = cap + 384 + inserting + 1;
         for r in &hist {
             if let Some(cnt) = r.resident_after {
+                let limit = limit0 + r.pass_applied_after as u64;
+                // what the policy itself holds beyond the capacity, as published by the last
+                // completed pass: an excess that is explained by it is a different matter (the
+                // policy admitted without evicting) than one sitting in front of the policy
+                let admitted_over = r.entry_count_after.saturating_sub(cap);
+                if !cfg.weigher && cnt as u64 > limit && admitted_over >= cnt as u64 - limit {
+                    rep.viol(
+                        "C04.overshoot-admitted",
+                        format!(
+                            "{} entries resident after T{} {}: the bound {} (max_capacity {} + write queue 384 + {} inserting threads + 1) is exceeded, and the last completed maintenance pass left {} entries admitted, {} more than max_capacity",
+                            cnt, r.tid, r.op.name(), limit, cap, inserting, r.entry_count_after, admitted_over
+                        ),
+                        r.invoke as usize,
+                        None,
+                    );
+                    break;
+                }
                 if !cfg.weigher && cnt as u64 > limit {
                     rep.viol(
                         "C04.overshoot-bound",
                         format!(
-                            "{} entries resident after T{} {} (max_capacity {} + write queue 384 + {} inserting threads = {})",
+                            "{} entries resident after T{} {} (max_capacity {} + write queue 384 + {} inserting threads + 1 record in the hands of a running pass + records that pass has applied so far = {})",
                             cnt, r.tid, r.op.name(), cap, inserting, limit
                         ),
                         r.invoke as usize,
